@@ -27,7 +27,7 @@ def run(tier):
     # impl -> spec, free-running threads (no scheduling by the driver): TLC validates a linearisation and the joined state
     import subprocess, json as _json
     wd = lib.workdir("c10")
-    rounds, ops = (20, 200) if quick else (300, 600)
+    rounds, ops = (20, 200) if quick else (100, 300)
     conc_events = 0
     for k in range(2 if quick else 6):
         tr = os.path.join(wd, "conc_%d.ndjson" % k)
